@@ -109,7 +109,8 @@ def check_junction_accumulate(ctx, ck, rule='R-SIB.junction-accumulate'):
             if isinstance(g, ast.If) and norm(g.test) == 'not geobj.conn[%d]' % K or \
                (isinstance(g, ast.If) and isinstance(g.test, ast.UnaryOp) and
                     norm(g.test.operand).endswith('.conn[%d]' % K)):
-                zero_rows.append([norm(s) for s in g.body])
+                zero_rows.append([norm(fl.inline(s.value, fl.node_id_of(s))) if isinstance(s, ast.Expr)
+                                  else norm(s) for s in g.body])
         feats[K]['zero'] = zero_rows
     return f, feats
 
